@@ -76,7 +76,7 @@ func TestC17(t *testing.T) {
 								}
 								// launch: the first launch of a fresh configuration; a second client built from
 								// the same *ClientConfig; the same client started again after a failed runner creation
-								for _, how := range []string{"first", "reuse", "retry", "cmd", "cmdenv", "reuseok", "cmdstdin"} {
+								for _, how := range []string{"first", "reuse", "retry", "cmd", "cmdenv", "reuseok", "cmdstdin", "symlinktmp"} {
 									if how == "reuseok" && (len(sub) > 0 || grp != "" || ports[0] != 0 || ports[1] != 0 || auto || mux) {
 										continue // the configuration has served a real, successfully negotiated start before: plain configurations
 									}
@@ -87,6 +87,9 @@ func TestC17(t *testing.T) {
 										continue
 									}
 									if how == "cmdstdin" && (len(sub) > 0 || grp != "" || ports[0] != 0 || ports[1] != 0) {
+										continue
+									}
+									if how == "symlinktmp" && (len(sub) > 0 || ports[0] != 0 || ports[1] != 0) {
 										continue
 									}
 									op := "env"
@@ -251,6 +254,9 @@ func TestC17(t *testing.T) {
 		if !cmdLaunch && (eff["PLUGIN_UNIX_SOCKET_DIR"] != r.SocketDir || r.SocketDir == "") {
 			// (a command launch creates no per-plugin socket directory)
 			bad("socket dir %q, the client's is %q", eff["PLUGIN_UNIX_SOCKET_DIR"], r.SocketDir)
+		}
+		if !cmdLaunch && r.SocketDirState != "ok" {
+			bad("the socket directory handed to the runner (%s) is %s", r.SocketDir, r.SocketDirState)
 		}
 		if c.Host.SkipHostEnv {
 			for _, k := range []string{"UNRELATED_MARKER", "VERIF_HOST_MARKER", "HOME", "PATH"} {
